@@ -195,7 +195,14 @@ fn seg_ending_at_boundary(ctx: &mut Ctx, buf: BufKind) -> Option<Vec<u8>> {
             f.extend_from_slice(&[0x31, 0x32]);
             f.extend(std::iter::repeat(0).take(rng.range(0, 4)));
             f.extend_from_slice(&[0x1b, 0x1b, 0x1b, 0x1b]);
-            match rng.below(3) {
+            match rng.below(4) {
+                3 => {
+                    // payload ending in 1..3 0x1b (looks like the beginning of a start sequence)
+                    let k = rng.range(1, 3);
+                    let mut pl = vec![*rng.pick(&[0x02u8, 0x03, 0x55]); 4 - k];
+                    pl.extend(std::iter::repeat(0x1b).take(k));
+                    f.extend_from_slice(&pl);
+                }
                 0 => f.extend_from_slice(&[*rng.pick(&[0x02u8, 0x03, 0x1c, 0x00]), rng.byte(), rng.byte(), rng.byte()]),
                 1 => f.extend_from_slice(&[0x1b, 0x1b, 0x1b, 0x55]),
                 _ => f.extend_from_slice(&[0x1b, *rng.pick(&[0x55u8, 0x1b]), 0x55, *rng.pick(&[0x1b, 0x00])]),
